@@ -14,7 +14,7 @@ Electron convention (the code's): `E x` = 2·(bond order sum + radical electrons
 with `aromatic` = 1.5 and `partial` (dative) = 0; lone pairs are not represented.
 -/
 namespace PGA.C16
-open PGA PGA.Rxn PGA.Spec PGA.Match
+open PGA PGA.Rxn PGA.Spec PGA.Match List
 
 /-! ## Preliminaries -/
 
@@ -123,6 +123,15 @@ charge changed by exactly ±1 (or was set, from the declared count), every other
 theorem C16_edit_exact (f : List Nat) (m m' : WMol) (e : Edit) (hw : m.wf = true)
     (h : applyEdit f m e = .ok m') : e.Effect f m m' :=
   (applyEdit_spec f m m' e hw h).effect
+
+/-- **T2, applicability**: for every edit object, index map and well-formed graph, the edit is applied successfully
+exactly when its precondition `Edit.Pre` holds: the labels are mapped to atoms of the molecule and — form: the atoms are
+distinct and not bonded; break / modify: they are bonded with the type the rule was balanced for; increase / decrease:
+bonded with a type on the ladder; radical set: the atom carries the declared count; radical −1: at least one radical
+electron; the remaining edits always apply. -/
+theorem C16_edit_applicable_iff (f : List Nat) (m : WMol) (e : Edit) (hw : m.wf = true) :
+    (∃ m', applyEdit f m e = .ok m') ↔ e.Pre f m :=
+  applyEdit_ok_iff f m e hw
 
 /-- **T2, frame for atoms**, edit lists of any length: an atom that no radical / charge edit of the rule names under
 the index map keeps its element, formal charge and radical electrons. -/
@@ -345,6 +354,67 @@ theorem C16_ethane_scission :
       some (none, some .single) ∧
     (runMatch scission ethane [0, 2]).toOption.map (fun p => p.mol.bonds.length) = some 6 := by
   refine ⟨by decide, by decide, by decide +kernel, by decide +kernel, by decide +kernel, by decide +kernel, by decide +kernel⟩
+
+theorem kindBetween_ofMol (m : Mol) (x y : Nat) :
+    (WMol.ofMol m).kindBetween x y = (m.bondBetween x y).map (fun e => BK.ofKind e.kind) := by
+  simp only [WMol.kindBetween, WMol.bondBetween, WMol.ofMol, Mol.bondBetween, List.find?_map, Option.map_map]
+  rfl
+
+theorem bond_joins_comm (e : Bond) (x y : Nat) : e.joins x y = e.joins y x := by
+  simp only [Bond.joins, Bool.or_comm]
+
+theorem mapM_ok_of_forall {α β ε : Type} (g : α → Except ε β) : ∀ (l : List α), (∀ a ∈ l, ∃ b, g a = .ok b) →
+    ∃ r, l.mapM g = .ok r := by
+  intro l
+  induction l with
+  | nil => intro _; exact ⟨[], by simp [List.mapM_nil, pure, Except.pure]⟩
+  | cons a l ih =>
+    intro h
+    obtain ⟨b, hb⟩ := h a (List.mem_cons_self)
+    obtain ⟨bs, hbs⟩ := ih (fun x hx => h x (List.mem_cons_of_mem _ hx))
+    exact ⟨b :: bs, by rw [List.mapM_cons]; simp [hb, hbs, bind, Except.bind, pure, Except.pure]⟩
+
+/-- **The docstring rule never fails**: on every well-formed molecule `RunReactants` of the C–H scission rule returns
+(one product set per match, by `C16_one_product_set_per_match`): the hypothesis "all edits succeed" of the run theorems
+is met by every match of this rule on every molecule. -/
+theorem C16_scission_total (m : Mol) (hm : m.wf = true) : ∃ ps, runReactants scission m = .ok ps := by
+  apply mapM_ok_of_forall
+  intro f hf
+  have hc := (mem_rawMatches chQuery m f (by decide)).1 (mem_queryMatches_raw hf)
+  have hlen : f.length = 2 := hc.length
+  obtain ⟨x, y, rfl⟩ : ∃ x y, f = [x, y] := by
+    match f, hlen with
+    | [x, y], _ => exact ⟨x, y, rfl⟩
+  have hx : x < m.natoms := hc.range x (by simp)
+  have hy : y < m.natoms := hc.range y (by simp)
+  have hb := hc.bonds ⟨1, 0, .single⟩ (by simp [chQuery])
+  simp only [bondAt, List.getElem?_cons_succ, List.getElem?_cons_zero] at hb
+  have hkind : (WMol.ofMol m).kindBetween x y = some .single := by
+    rw [kindBetween_ofMol]
+    have : m.bondBetween x y = m.bondBetween y x := by
+      simp only [Mol.bondBetween]
+      congr 1; funext e; exact bond_joins_comm e x y
+    rw [this]
+    cases hbb : m.bondBetween y x with
+    | none => simp [hbb] at hb
+    | some e =>
+      simp only [hbb, rdBondMatch, rdBondKind, beq_iff_eq] at hb
+      simp [hb, BK.ofKind]
+  -- the three edits in turn
+  have hw0 := ofMol_wf m hm
+  have hn0 : (WMol.ofMol m).natoms = m.natoms := by simp [WMol.natoms, WMol.ofMol, Mol.natoms]
+  obtain ⟨m1, h1⟩ := (applyEdit_ok_iff [x, y] (WMol.ofMol m) (.radicalIncrease 0) hw0).2 ⟨x, rfl, by rw [hn0]; exact hx⟩
+  have s1 := applyEdit_spec _ _ _ _ hw0 h1
+  obtain ⟨_, _, _, _, _, _, hb1⟩ := s1.effect
+  obtain ⟨m2, h2⟩ := (applyEdit_ok_iff [x, y] m1 (.radicalIncrease 1) s1.wf).2 ⟨y, rfl, by rw [s1.natoms, hn0]; exact hy⟩
+  have s2 := applyEdit_spec _ _ _ _ s1.wf h2
+  obtain ⟨_, _, _, _, _, _, hb2⟩ := s2.effect
+  have hk2 : m2.kindBetween x y = some .single := by
+    rw [kindBetween_of_bonds hb2, kindBetween_of_bonds hb1]; exact hkind
+  obtain ⟨m3, h3⟩ := (applyEdit_ok_iff [x, y] m2 (.bondBreak 0 1 .single) s2.wf).2
+    ⟨x, y, rfl, rfl, by rw [s2.natoms, s1.natoms, hn0]; exact hx, by rw [s2.natoms, s1.natoms, hn0]; exact hy, hk2⟩
+  refine ⟨⟨m3, components m3⟩, ?_⟩
+  simp only [runMatch, scission, applyEdits, h1, h2, h3, bind, Except.bind, pure, Except.pure]
 
 /-- non-vacuity of `C16_balance`'s conclusion on the example: on the first match the sum is unchanged at both
 labelled atoms (carbon: −1 bond, +1 radical; hydrogen likewise) -/
